@@ -10,7 +10,7 @@ from . import absapi, core, gen, pipeline, tlc
 
 PKG = 'acme.call.v1'
 MODULE = 'acme.call_v1'
-FIELDS = ['name', 'count', 'flag', 'tags', 'labels', 'inner.name', 'kind', 'class', 'blob', 'vals', 'request_id', 'opt_request_id']
+FIELDS = ['name', 'count', 'flag', 'tags', 'labels', 'inner.name', 'inner.tags', 'kind', 'class', 'blob', 'vals', 'request_id', 'opt_request_id']
 # concrete values for the abstract variants 1 and 2 (3 = explicitly empty string, ids only)
 VALUES = {
     'name': {1: 'things/a', 2: 'things/b'},
@@ -19,6 +19,7 @@ VALUES = {
     'tags': {1: ['x'], 2: ['y', 'z']},
     'labels': {1: {'k': 'v'}, 2: {'a': 'b', 'c': 'd'}},
     'inner.name': {1: 'in1', 2: 'in2'},
+    'inner.tags': {1: ['p'], 2: ['q', 'r']},        # repeated leaf of the nested message (a dotted signature entry)
     'kind': {1: 'ALPHA', 2: 'BETA'},
     'class': {1: 'c1', 2: 'c2'},
     'blob': {1: b'abcd', 2: b'\x00\xffz'},          # bytes: a dict request must carry them verbatim (no base64 round trip)
@@ -76,7 +77,7 @@ def carrier_api():
         m('TouchThing', 'touch', sigs=['', 'name,tags,count', 'name,count', 'vals']),
         m('PlainThing', 'plain'),
         # its reply is the API's OWN message named Empty (with fields): not google.protobuf.Empty, hence not a void method
-        m('NullThing', 'null', out='Empty'),
+        m('NullThing', 'null', out='Empty', sigs=['inner.tags']),
         m('Import', 'import'),
         m('CreateChannel', 'createChannel', ss=True),
         m('WatchThings', 'watch', sigs=['name'], ss=True),
@@ -85,7 +86,7 @@ def carrier_api():
     ]
     main = dict(name='acme/call/v1/things.proto', package=PKG,
                 enums=[dict(name='Kind', values=['KIND_UNSPECIFIED', 'ALPHA', 'BETA'])],
-                messages=[dict(name='Inner', fields=[dict(name='name'), dict(name='level', type='int32')]),
+                messages=[dict(name='Inner', fields=[dict(name='name'), dict(name='level', type='int32'), dict(name='tags', repeated=True)]),
                           dict(name='Thing', fields=[dict(name='name'), dict(name='count', type='int32')]),
                           dict(name='Empty', fields=[dict(name='name'), dict(name='count', type='int32')]),
                           dict(name='Req', fields=req_fields)],
@@ -106,8 +107,8 @@ def concretise(val, dep=False):
         if not v:
             continue
         cv = VALUES[f][v]
-        if f == 'inner.name':
-            d.setdefault('inner', {})['name'] = cv
+        if f.startswith('inner.'):
+            d.setdefault('inner', {})[f.split('.')[1]] = cv
         else:
             d[f] = cv
     return d
@@ -117,8 +118,8 @@ def abstract(d, seen_ids=None, presence=()):
     """decoded message dict (proto field names, MessageToDict of the INPUT-descriptor message) -> valuation."""
     val = {f: 0 for f in FIELDS}
     for f in FIELDS:
-        if f == 'inner.name':
-            cv = (d.get('inner') or {}).get('name')
+        if f.startswith('inner.'):
+            cv = (d.get('inner') or {}).get(f.split('.')[1])
         else:
             cv = d.get(f)
         if cv is None:
@@ -149,7 +150,7 @@ def kw_python(kw):
     for f, v in kw.items():
         if not v:
             continue
-        pname = {'inner.name': 'name', 'class': 'class_'}.get(f, f)
+        pname = {'inner.name': 'name', 'inner.tags': 'tags', 'class': 'class_'}.get(f, f)
         out[pname] = VALUES[f][v]
     return out
 
